@@ -219,7 +219,7 @@ PROPS = {
                         "stack overflow and allocation failure are outside the property ('within stack limits')"],
     },
     "C17": {
-        "rules": [determinism.rule_hash, determinism.rule_static, determinism.rule_ambient, determinism.rule_trunc],
+        "rules": [determinism.rule_hash, determinism.rule_static, determinism.rule_ambient, determinism.rule_trunc, determinism.rule_cachekey],
         "text": "Static decision of the ways the pipeline could become non-deterministic: (R-HASH) every iteration over a "
                 "std hash collection in non-test workspace code ends in an order-insensitive sink; (R-STATIC) the only global "
                 "mutable state is the label counter, touched only by fresh_label and used only as label text; (R-AMBIENT) no "
